@@ -213,6 +213,10 @@ def cases(prop, tier, seed):
     out.append(_random_case(rng, 'Unwrap', ufull + 1))
   out.extend(_cw_cases())
   out.extend(_map_cases())
+  if tier != 'quick':
+    # one forked process per case is dominated by process start-up: pack BUNDLE independent cases
+    # (the combinators have no global state) into one trace, separated by Reset events
+    out = [{'episodes': out[i:i + BUNDLE]} for i in range(0, len(out), BUNDLE)]
   return out
 
 
@@ -331,10 +335,28 @@ class _Ctx(object):
     return o
 
 
+BUNDLE = 8
+
+
 def run_case(script):
   if 'behaviour' in script:
     o = _replay_one(script)
     return {'cfg': o['cfg'], 'ev': o['ev']}
+  if 'episodes' in script:
+    ev = []
+    first = None
+    for j, sub in enumerate(script['episodes']):
+      o = _run_one(sub)
+      if j == 0:
+        first = o['cfg']
+      else:
+        ev.append({'e': 'Reset', 'comb': o['cfg']['comb'], 'n': o['cfg']['n']})
+      ev.extend(o['ev'])
+    return {'cfg': first, 'ev': ev}
+  return _run_one(script)
+
+
+def _run_one(script):
   loop = common.boot()
   loop.run_until_idle()
   cx = _Ctx(script['comb'], script['n'], script.get('on_hub', True), script.get('fnk', 'ret'))
@@ -356,14 +378,30 @@ def run_case(script):
 
 def nontrivial(prop, t):
   ev = t['ev']
-  if t['cfg']['n'] >= 2 or t['cfg']['comb'] in ('ContinueWith', 'Map'):
+  if t['cfg']['n'] >= 2 or t['cfg']['comb'] in ('ContinueWith', 'Map') or any(e['e'] == 'Reset' for e in ev):
     return common.canon([t['cfg'], ev])
   return None
 
 
-def witness(prop, t, consumed, clause):
+def _episode(t, consumed):
+  """(combinator, events of the episode that contains event index `consumed`, index inside it)."""
   ev = t['ev']
   comb = t['cfg']['comb']
+  start = 0
+  for j, e in enumerate(ev[:consumed + 1]):
+    if e['e'] == 'Reset':
+      comb = e['comb']
+      start = j + 1
+  end = next((j for j in range(start, len(ev)) if ev[j]['e'] == 'Reset'), len(ev))
+  return comb, ev[start:end], consumed - start
+
+
+def extra_coverage(prop, tier, traces):
+  return {'combinator_calls_evaluated': sum(1 + sum(1 for e in t['ev'] if e['e'] == 'Reset') for t in traces)}
+
+
+def witness(prop, t, consumed, clause):
+  comb, ev, consumed = _episode(t, consumed)
   shape = 'other'
   if consumed < len(ev) and ev[consumed].get('e') == 'Obs':
     o = ev[consumed]
